@@ -1,5 +1,6 @@
 import FeatherModel.Lemmas.DescGrammar
 import FeatherModel.Lemmas.RemapperC
+import FeatherModel.Lemmas.RemapProv
 
 /-!
 # C06 — remappers answer names and descriptors consistently with the mappings
@@ -25,6 +26,13 @@ Reading guide
   source of its image, for an unmapped name that it is not a target), with `_witness`es outside it.
   `roundtrip_desc` additionally needs the images to be usable inside `L…;` (`validName`: non-empty, no `;`), which every
   checked `ObjClassName` satisfies; `roundtrip_desc_witness` is an unchecked name with a `;`.
+* the provider carried into the other namespace (`JarSuperProv::remap`, `Model/RemapProv.lean`): `prov_remap_spec`
+  (row-wise characterisation), `prov_remap_keys`, `prov_remap_set`, `prov_remap_keeps_edges` (every edge `(c, s)` of a
+  surviving row becomes the edge `(map c, map s)`, nothing is dropped or added; names the mappings do not know stay,
+  `prov_remap_unmapped`), `prov_remap_keeps_edges_inj` (unique keys + injective renaming: every row survives),
+  `prov_remap_collision_witness` (two keys with one image: the earlier row's edges are gone — `IndexMap::insert`),
+  `prov_remap_preorder` (the search order on the carried provider is the image of the search order), and the round trip
+  of an *inherited* member through the carried provider, `roundtrip_inherited` (+ `roundtrip_inherited_hit`);
 * history independence: `seq_pointwise`, `seq_history_independent`, `seq_prefix_irrelevant` (+ `seq_fresh`, `seq_length`,
   `seq_append`, `seq_reverse`, `seq_repeat`): the answers of one instance to a sequence of questions are the answers of a
   fresh instance to every single question (ops `map-seq`, `oracle-seq-history-independent`).
@@ -505,8 +513,8 @@ theorem roundtrip_desc_witness :
 
 /-- members: if the owner's table maps `key ↦ key'`, the owner is the only source of its image and, inside the row the
 table was built from, `key` is the only source of `key'`, then the reverse remapper maps `key'` back to `key` in the
-image of the owner. (Declared members; what an *inherited* reference maps back to depends on the provider of the other
-namespace and is not covered.) -/
+image of the owner. (Declared members; an *inherited* reference maps back through the provider of the other
+namespace, `JarSuperProv::remap`: `roundtrip_inherited`.) -/
 theorem roundtrip_member (k : Kind) {m : Mappings} {x y : Nat} {rf rb : BTable}
     (hf : remapperB m x y = some rf) (hb : remapperB m y x = some rb)
     {o : JStr} {cls : BClass} {row : Class} {rows : List (MemberKey × MemberKey)} {key key' : MemberKey}
@@ -628,6 +636,180 @@ example :
     injOn (classPairs mD 0 1) (jstr "A1") (jstr "A") = true ∧
     (remapperB mD 0 1).bind (fun rf => declares BClass.fields rf (jstr "f", jstr "I") (jstr "A")) = some (jstr "g", jstr "I") ∧
     (remapperB mD 1 0).bind (fun rb => declares BClass.fields rb (jstr "g", jstr "I") (jstr "A1")) = some (jstr "f", jstr "I") := by
+  decide
+
+/-! ## the provider carried into the other namespace: `JarSuperProv::remap`
+
+`remapper_b(X→Y, prov)` answers questions about names of X and walks the super types of `prov`, which are names of X.
+The way back, `remapper_b(Y→X, prov')`, needs the inheritance graph in names of Y: `prov' = JarSuperProv::remap(re, prov)`
+with `re` the X→Y remapper (`src/specialized_methods`, `src/sus.rs` of the binary crate do exactly this). `t` below is the
+class table of `re` (`classTable rf` for a B remapper, `aTable` for an A remapper; equal by `remapperB_class`). -/
+
+/-- **Row-wise characterisation.** The carried provider answers for a name `k` with the image of the *last* row whose key
+has the image `k` (`IndexMap::insert` replaces the value of a key met again) — key and super types through `map_class`,
+the super types collected by a loop of `IndexSet::insert` (`setOf`) — and knows no other names. -/
+theorem prov_remap_spec (t : ATable) (s : Supers) (k : JStr) :
+    AList.lookup k (remapSupers t s) =
+      (lastMatch (fun e => mapClass t e.1 == k) s).map fun e => setOf (e.2.map (mapClass t)) :=
+  lookup_remapSupers t s k
+
+/-- the names the carried provider knows are exactly the images of the names the provider knows -/
+theorem prov_remap_keys (t : ATable) (s : Supers) (k : JStr) :
+    (AList.lookup k (remapSupers t s)).isSome ↔ ∃ e ∈ s, mapClass t e.1 = k :=
+  mem_keys_remapSupers t s k
+
+/-- the `IndexSet` of a row: the same elements, each once; a duplicate-free list is kept as it is -/
+theorem prov_remap_set (l : List JStr) :
+    (∀ x, x ∈ setOf l ↔ x ∈ l) ∧ (setOf l).Nodup ∧ (l.Nodup → setOf l = l) :=
+  ⟨mem_setOf l, nodup_setOf l, setOf_of_nodup l⟩
+
+/-- `remap` works provider by provider -/
+theorem prov_remap_vec (t : ATable) (ps : List Supers) (i : Nat) :
+    (remapProvs t ps)[i]? = (ps[i]?).map (remapSupers t) := by
+  simp [remapProvs]
+
+/-- **Every edge is kept.** If `(c, ss)` is the row that survives for its image (the last row among the keys with the image
+of `c`; with an injective renaming: every row, `prov_remap_keeps_edges_inj`), the carried provider has a row for `map c`,
+and its super types are exactly the images of `ss`: every edge `(c, s)` became `(map c, map s)`, nothing was dropped,
+nothing was added. Super types the mappings do not name are kept under their own name (`prov_remap_unmapped`). -/
+theorem prov_remap_keeps_edges (t : ATable) (s : Supers) (c : JStr) (ss : List JStr)
+    (hsurv : lastMatch (fun e => mapClass t e.1 == mapClass t c) s = some (c, ss)) :
+    ∃ ss', AList.lookup (mapClass t c) (remapSupers t s) = some ss' ∧
+      (∀ sup ∈ ss, mapClass t sup ∈ ss') ∧ (∀ x ∈ ss', ∃ sup ∈ ss, mapClass t sup = x) ∧ ss'.Nodup := by
+  refine ⟨setOf (ss.map (mapClass t)), ?_, ?_, ?_, nodup_setOf _⟩
+  · rw [prov_remap_spec, hsurv]; rfl
+  · intro sup hs
+    exact (mem_setOf _ _).mpr (List.mem_map.mpr ⟨sup, hs, rfl⟩)
+  · intro x hx
+    obtain ⟨sup, hs, e⟩ := List.mem_map.mp ((mem_setOf _ _).mp hx)
+    exact ⟨sup, hs, e⟩
+
+/-- names the remapper does not know are kept unchanged, as key and as super type -/
+theorem prov_remap_unmapped (t : ATable) (c : JStr) (ss : List JStr) (h : ∀ x ∈ c :: ss, mapClassFail t x = none) :
+    remapRow t (c, ss) = (c, setOf ss) := by
+  have hm : ∀ x ∈ c :: ss, mapClass t x = x := by
+    intro x hx
+    simp [mapClass, h x hx]
+  unfold remapRow
+  rw [hm c List.mem_cons_self]
+  have : ss.map (mapClass t) = ss := by
+    conv => rhs; rw [← List.map_id ss]
+    exact List.map_congr_left (fun x hx => hm x (List.mem_cons_of_mem _ hx))
+  rw [this]
+
+/-- with the invariants of a `JarSuperProv` (unique keys, duplicate-free super types) and a renaming injective on the class
+names involved, *every* row survives, with its super types in the same order -/
+theorem prov_remap_keeps_edges_inj (t : ATable) (s : Supers) (c : JStr) (N : List JStr)
+    (hinj : injOnList (mapClass t) N = true) (hc : c ∈ N) (hkeys : ∀ e ∈ s, e.1 ∈ N) (hsups : ∀ e ∈ s, ∀ x ∈ e.2, x ∈ N)
+    (hnd : (s.map Prod.fst).Nodup) (hnds : ∀ e ∈ s, e.2.Nodup) :
+    AList.lookup (mapClass t c) (remapSupers t s) = (AList.lookup c s).map (List.map (mapClass t)) :=
+  lookup_remapSupers_inj t s c N hinj hc hkeys hsups hnd hnds
+
+/-- the search order (`dfs`, what `map_*_fail` walks) on the carried `Vec` of providers from the image of `c` is the image of
+the search order from `c` -/
+theorem prov_remap_preorder (t : ATable) (ps : List Supers) (N : List JStr)
+    (hinj : injOnList (mapClass t) N = true) (hN : ∀ x ∈ nodesOf ps, x ∈ N) (hwf : wfProvs ps = true)
+    (fuel : Nat) (c : JStr) (hc : c ∈ N) :
+    dfs (flattenProvs (remapProvs t ps)) fuel (mapClass t c) = (dfs (flattenProvs ps) fuel c).map (List.map (mapClass t)) :=
+  dfs_remapProvs t ps N hinj hN hwf fuel c hc
+
+/-- `A ↦ Z`, `B ↦ Z` -/
+def tCol : ATable := [(jstr "A", jstr "Z"), (jstr "B", jstr "Z")]
+
+/-- two keys with one image: the carried provider has one row `Z`, at the position of the first, with the super types of
+the last — the edge `A → P` is gone. This is `IndexMap::insert`, and outside "everything the mappings name injectively". -/
+theorem prov_remap_collision_witness :
+    remapSupers tCol [(jstr "A", [jstr "P"]), (jstr "C", [jstr "A"]), (jstr "B", [jstr "Q"])] =
+      [(jstr "Z", [jstr "Q"]), (jstr "C", [jstr "Z"])] ∧
+    survives tCol [(jstr "A", [jstr "P"]), (jstr "C", [jstr "A"]), (jstr "B", [jstr "Q"])] (jstr "A") = false ∧
+    survives tCol [(jstr "A", [jstr "P"]), (jstr "C", [jstr "A"]), (jstr "B", [jstr "Q"])] (jstr "B") = true := by
+  decide
+
+/-- **Round trip of an inherited member through the carried provider.** `rf` = `remapper_b(X→Y)`, `rb` = `remapper_b(Y→X)`,
+`ps` the `Vec<JarSuperProv>` in names of X, `order` the search order from the owner `o`. If
+
+* the providers satisfy their invariants and the X→Y class renaming is injective on the owner and the class names of the
+  providers (`injOnList`, decidable: "the mappings name the classes involved injectively"),
+* the X→Y remapper answers `key ↦ key'` for `o` — declared by `o` or inherited through any chain of super types, mapped
+  or not (`hfwd`; by `member_resolution` this is `map_*_fail`'s answer),
+* no class of the search order that does not declare `key` declares something else that is called `key'` in Y (`hmiss`:
+  `key'` is not the image of another member on the way), and the classes declaring `key ↦ key'` declare `key' ↦ key` on the
+  way back (`hhit`; by `roundtrip_member` / `roundtrip_inherited_hit` this follows from `injOn` for the class and the member),
+
+then asking the Y→X remapper, built over `JarSuperProv::remap(rf, ps)`, about `key'` in the image of `o` gives `key` back. -/
+theorem roundtrip_inherited (sel : BClass → AList MemberKey MemberKey) (rf rb : BTable) (ps : List Supers) (o : JStr)
+    (key key' : MemberKey) {f f' : Nat} {order : List JStr}
+    (hd : dfs (flattenProvs ps) f o = some order) (hle : f ≤ f')
+    (hwf : wfProvs ps = true)
+    (hinj : injOnList (mapClass (classTable rf)) (o :: nodesOf ps) = true)
+    (hfwd : order.findSome? (declares sel rf key) = some key')
+    (hmiss : ∀ d ∈ order, declares sel rf key d = none → declares sel rb key' (mapClass (classTable rf) d) = none)
+    (hhit : ∀ d ∈ order, declares sel rf key d = some key' →
+      declares sel rb key' (mapClass (classTable rf) d) = some key) :
+    mapMemberFail sel rf (flattenProvs ps) f' o key = some (some key') ∧
+    mapMemberFail sel rb (flattenProvs (remapProvs (classTable rf) ps)) f' (mapClass (classTable rf) o) key' =
+      some (some key) := by
+  constructor
+  · rw [member_resolution sel rf _ key hd hle, hfwd]
+  · have hd' := prov_remap_preorder (classTable rf) ps (o :: nodesOf ps) hinj
+      (fun x hx => List.mem_cons_of_mem _ hx) hwf f o List.mem_cons_self
+    rw [hd] at hd'
+    rw [member_resolution sel rb _ key' hd' hle]
+    congr 1
+    exact findSome_back _ _ _ key key' order hfwd hmiss hhit
+
+/-- `hhit` of `roundtrip_inherited` for one class, from the hypotheses of `roundtrip_member`: the class is the only source of
+its image and, inside the row its table was built from, `key` is the only source of `key'` -/
+theorem roundtrip_inherited_hit (k : Kind) {m : Mappings} {x y : Nat} {rf rb : BTable}
+    (hf : remapperB m x y = some rf) (hb : remapperB m y x = some rb)
+    {d : JStr} {cls : BClass} {row : Class} {rows : List (MemberKey × MemberKey)} {key key' : MemberKey}
+    (ho : AList.lookup d rf = some cls) (hk : AList.lookup key (k.sel cls) = some key')
+    (hrow : selectedRow m x y d = some row)
+    (hrows : memberRows (aTable m 0 x) (aTable m 0 y) x y (k.members row) = some rows)
+    (hc : injOn (classPairs m x y) cls.name d = true) (hm : injOn rows key' key = true) :
+    declares k.sel rf key d = some key' ∧ declares k.sel rb key' (mapClass (classTable rf) d) = some key := by
+  have hmc : mapClass (classTable rf) d = cls.name := by
+    simp [mapClass, mapClassFail, lookup_classTable, ho]
+  rw [hmc]
+  exact ⟨by simp [declares, ho, hk], roundtrip_member k hf hb ho hk hrow hrows hc hm⟩
+
+/-- `a ↦ pkg/Base` declaring `x:I ↦ counter`, `c ↦ pkg/Child`, `d ↦ pkg/Direct`; `lib/Mid` is not in the mappings -/
+def mG : Mappings :=
+  { ns := [jstr "obf", jstr "named"], doc := none,
+    classes := [
+      clsW "a" "pkg/Base" [((jstr "x", jstr "I"), { desc := jstr "I", names := [some (jstr "x"), some (jstr "counter")], doc := none })],
+      (jstr "c", { names := [some (jstr "c"), some (jstr "pkg/Child")], doc := none, fields := [], methods := [] }),
+      (jstr "d", { names := [some (jstr "d"), some (jstr "pkg/Direct")], doc := none, fields := [], methods := [] })] }
+
+/-- `c extends lib/Mid extends a`, `d extends a` -/
+def psG : List Supers :=
+  [[(jstr "c", [jstr "lib/Mid"]), (jstr "lib/Mid", [jstr "a", jstr "java/io/Serializable"]), (jstr "d", [jstr "a"]),
+    (jstr "a", [jstr "java/lang/Object"])]]
+
+/-- non-vacuity with an unmapped intermediate class: the carried provider keeps the edges into and out of `lib/Mid`
+(`pkg/Child → lib/Mid → pkg/Base`); the hypotheses of `roundtrip_inherited` hold for the field `x:I` asked through `c`;
+`c.x ↦ counter` on the way there and `pkg/Child.counter ↦ x` on the way back -/
+example :
+    (remapperB mG 0 1).map (fun rf => remapProvs (classTable rf) psG) =
+      some [[(jstr "pkg/Child", [jstr "lib/Mid"]), (jstr "lib/Mid", [jstr "pkg/Base", jstr "java/io/Serializable"]),
+        (jstr "pkg/Direct", [jstr "pkg/Base"]), (jstr "pkg/Base", [jstr "java/lang/Object"])]] ∧
+    wfProvs psG = true ∧
+    (remapperB mG 0 1).map (fun rf => injOnList (mapClass (classTable rf)) (jstr "c" :: nodesOf psG)) = some true ∧
+    dfs (flattenProvs psG) 5 (jstr "c") =
+      some [jstr "c", jstr "lib/Mid", jstr "a", jstr "java/lang/Object", jstr "java/io/Serializable"] ∧
+    (remapperB mG 0 1).bind (fun rf => (remapperB mG 1 0).map fun rb =>
+      [jstr "c", jstr "lib/Mid", jstr "a", jstr "java/lang/Object", jstr "java/io/Serializable"].all fun d =>
+        match declares BClass.fields rf (jstr "x", jstr "I") d with
+        | none => declares BClass.fields rb (jstr "counter", jstr "I") (mapClass (classTable rf) d) == none
+        | some v => v == (jstr "counter", jstr "I") &&
+            declares BClass.fields rb (jstr "counter", jstr "I") (mapClass (classTable rf) d) == some (jstr "x", jstr "I")) =
+      some true ∧
+    (remapperB mG 0 1).bind (fun rf =>
+      mapMemberFail BClass.fields rf (flattenProvs psG) 5 (jstr "c") (jstr "x", jstr "I")) =
+      some (some (jstr "counter", jstr "I")) ∧
+    (remapperB mG 0 1).bind (fun rf => (remapperB mG 1 0).bind fun rb =>
+      mapMemberFail BClass.fields rb (flattenProvs (remapProvs (classTable rf) psG)) 5 (jstr "pkg/Child")
+        (jstr "counter", jstr "I")) = some (some (jstr "x", jstr "I")) := by
   decide
 
 /-! ## sequences of questions to one instance: answers do not depend on history
